@@ -154,7 +154,80 @@ var concStubs = []string{
 	"sync.Mutex/WaitGroup/Map, atomic.Int64, context and channels are modelled by the engine with Go's blocking semantics",
 }
 
+func concRun(fn, nfn, dfn, prefix string, quickP, thoroughP int, crash bool, quickShapes []int, canary []int) HarnessRun {
+	return HarnessRun{Pkg: cmdPkg, Dir: "internal/engine/command", Mod: "ledger", Fn: fn,
+		Shapes: func(s *Session, tier string) []int {
+			all := countShapes(cmdPkg, nfn)(s, tier)
+			if tier == "thorough" || quickShapes == nil {
+				return all
+			}
+			return quickShapes
+		},
+		Cfg: func(tier string) interp.Config {
+			c := concCfg(quickP, thoroughP, crash)(tier)
+			c.SchedDecide = false // switches forced by blocking go to the lowest thread id
+			return c
+		},
+		Desc: harnessDesc(cmdPkg, dfn, prefix), CanaryShapes: canary}
+}
+
+func concBounds(what string, crash bool) func(tier string) map[string]any {
+	return func(tier string) map[string]any {
+		p := 1
+		if tier == "thorough" {
+			p = 2
+		}
+		b := map[string]any{"scenarios": what, "preemption_budget": p, "blocking_switches": "deterministic (lowest thread id = creation order); every pre-emption at a statement boundary of the instrumented files within the budget is explored", "data": "opening balance, amounts, last log id L and last transaction id N symbolic", "threads": "main, one per client request, commander runner, batch worker (and their second generation after a restart)"}
+		if crash {
+			b["crash"] = "the process may stop at any statement boundary of any non-main thread (spends one unit of the budget); the harness then restarts a commander on the same store"
+		}
+		return b
+	}
+}
+
+var concAssume = append(append([]string{}, concStubs...), cmdStubs[0], cmdStubs[1], cmdStubs[2], cmdStubs[3], cmdStubs[4])
+
 var specs = map[string]*CheckSpec{
+	"C02": {
+		ID: "C02", Patterns: []string{cmdPkg}, NeedHelper: true, Instrument: true,
+		Runs:        []HarnessRun{concRun("ZZ_C02", "ZZ_C02N", "ZZ_C02Desc", "", 1, 2, false, nil, []int{0, 2})},
+		Bounds:      concBounds("two concurrent sends from one account, the source named literally / by an account variable / through meta(); 5 combinations", false),
+		Assumptions: concAssume, Encoded: cmdEncoded,
+		Rule:        "after quiescence the persisted log is replayed in order from the symbolic opening balance: every posting must be covered at its position; every Lock call must carry the resolved source in its write set",
+		MaxPaths:    func(tier string) int { return 2000000 },
+	},
+	"C05": {
+		ID: "C05", Patterns: []string{cmdPkg}, NeedHelper: true, Instrument: true,
+		Runs:        []HarnessRun{concRun("ZZ_C05", "ZZ_C05N", "ZZ_C05Desc", "", 1, 2, true, []int{0, 1, 2, 3, 4, 5}, []int{0, 3})},
+		Bounds:      concBounds("2 (thorough: also 3) concurrent writes (create on a locked account, create from world only, set/delete metadata, revert), then stop-or-crash, restart on the same store and one more create", true),
+		Assumptions: concAssume, Encoded: cmdEncoded,
+		Rule:        "at quiescence and again after the restart: log ids L+1.. in insertion order, every hash recomputed from its predecessor, transaction ids N+1.. in log order",
+		MaxPaths:    func(tier string) int { return 2000000 },
+	},
+	"C06": {
+		ID: "C06", Patterns: []string{cmdPkg}, NeedHelper: true, Instrument: true,
+		Runs:        []HarnessRun{concRun("ZZ_C06", "ZZ_C06N", "ZZ_C06Desc", "", 1, 2, true, []int{0, 1, 2, 3, 6, 7, 10, 11}, []int{0, 6})},
+		Bounds:      concBounds("2 (thorough: also 3) concurrent writes with distinct markers, with and without an injectable InsertLogs failure", true),
+		Assumptions: append([]string{"a failing InsertLogs persists nothing (one database transaction per batch)"}, concAssume...), Encoded: cmdEncoded,
+		Rule:        "at the instant a write returns success its marker must be in the persisted log; at quiescence acknowledged writes and log entries are in bijection, failed writes left nothing, every entry belongs to a request",
+		MaxPaths:    func(tier string) int { return 2000000 },
+	},
+	"C07": {
+		ID: "C07", Patterns: []string{cmdPkg}, NeedHelper: true, Instrument: true,
+		Runs:        []HarnessRun{concRun("ZZ_C07", "ZZ_C07N", "ZZ_C07Desc", "", 1, 2, true, nil, []int{0, 1})},
+		Bounds:      concBounds("two concurrent writes with one idempotency key (create/create, metadata/metadata, create/metadata, revert/revert), then stop-or-crash, restart and a retry with the same key", true),
+		Assumptions: concAssume, Encoded: cmdEncoded,
+		Rule:        "at most one log entry carries the key; all successful responses name the same transaction",
+		MaxPaths:    func(tier string) int { return 2000000 },
+	},
+	"C11": {
+		ID: "C11", Patterns: []string{cmdPkg}, NeedHelper: true, Instrument: true,
+		Runs:        []HarnessRun{concRun("ZZ_C11", "ZZ_C11N", "ZZ_C11Desc", "", 1, 2, false, nil, []int{0})},
+		Bounds:      concBounds("2-3 concurrent creates sharing one reference (each may succeed or fail on funds), then a later create with the same reference", false),
+		Assumptions: concAssume, Encoded: cmdEncoded,
+		Rule:        "at most one committed transaction carries the reference; accepted requests = committed transactions; the later request is rejected with a conflict",
+		MaxPaths:    func(tier string) int { return 2000000 },
+	},
 	"C15": {
 		ID: "C15", Patterns: []string{cmdPkg}, Instrument: true,
 		Runs: []HarnessRun{{Pkg: cmdPkg, Dir: "internal/engine/command", Mod: "ledger", Fn: "ZZ_C15", Shapes: countShapes(cmdPkg, "ZZ_C15N"),
